@@ -7,6 +7,7 @@ import (
 	"bytes"
 	"encoding/json"
 	"fmt"
+	"io"
 	"math"
 	"os"
 	"reflect"
@@ -261,6 +262,22 @@ func execute(req *Req) *Res {
 		_ = rec1
 		res.Outs = r1
 	case "report":
+		if len(req.Warm) > 0 {
+			// a first render on the same instance (other data, other length) before the measured one
+			w := req.Data
+			w.Seed = splitmix(w.Seed + 77)
+			wr := inst.Report(feedSnapshots(NewRecorder(), req, req.Warm[0], w))
+			var wwg sync.WaitGroup
+			wwg.Add(1)
+			go func() {
+				defer wwg.Done()
+				wr.WriteToWriter(io.Discard)
+			}()
+			wwg.Wait()
+			census()
+			columnStates(wr)
+			census()
+		}
 		rec := NewRecorder()
 		rec.Install()
 		report := inst.Report(feedSnapshots(rec, req, req.Lens[0], req.Data))
